@@ -14,7 +14,7 @@ ASSUMPTIONS = ['only records that satisfy C01 are judged (field semantics of an 
                'tolerance 0.051 for one-decimal formatting']
 MINIMUMS = {'files-with-1000+-records': 1, 'records-judged': {'quick': 1000, 'thorough': 20000}, 'reverse-records': {'quick': 300, 'thorough': 4000},
             'second-pass-records': {'quick': 100, 'thorough': 1500}, 'joined-records': {'quick': 20, 'thorough': 300}}
-CLASSES = ['clean', 'noisy', 'noisy', 'chimeric', 'indel', 'partial', 'partial']
+CLASSES = ['clean', 'noisy', 'noisy', 'chimeric', 'translocation', 'indel', 'partial', 'partial']
 
 
 def plan(tier, seed):
